@@ -23,7 +23,7 @@ type c15Case struct {
 	Cfg      sut.Config `json:"cfg"`
 	Spec     PipeSpec   `json:"spec"`
 	Accept   []int      `json:"accept_close_nodes,omitempty"` // nodes that close connections on accept during the case
-	KillConn []int      `json:"kill_conns_first,omitempty"`    // nodes whose current connections are closed just before the case
+	KillConn []int      `json:"kill_conns_first,omitempty"`   // nodes whose current connections are closed just before the case
 }
 
 // c15Build makes one client's pipeline of n GETs (or one split request at position splitAt) with a fault at pos.
@@ -111,7 +111,7 @@ func c15Gen(t *rapid.T) c15Case {
 				}
 			}
 		}
-		cs.Cuts = genCuts(40 * n).Draw(t, "cuts")
+		cs.Cuts = genCuts(40*n).Draw(t, "cuts")
 		c.Spec.Clients = append(c.Spec.Clients, cs)
 		c.Spec.Plans = append(c.Spec.Plans, plans...)
 	}
